@@ -750,8 +750,8 @@ Proof.
   destruct (inv_b_facts b Hb) as (Hndb & _ & _ & Hcb & _).
   cbn [step] in *. rewrite Hga, Hgb in *.
   destruct (negb (Nat.eqb (fam (abs a)) (fam (abs b)))); [discriminate|].
-  destruct (negb (forallb _ (names (abs a)))) eqn:Ehas; [discriminate|].
   destruct (negb (forallb _ (view (abs a)))) eqn:Ekind; [discriminate|].
+  destruct (negb (forallb _ (names (abs a)))) eqn:Ehas; [discriminate|].
   apply negb_false_iff in Ehas, Ekind. rewrite forallb_forall in Ehas, Ekind.
   unfold merge_tables in Hm.
   set (rid := idx_sorted (idx_of_list _)) in Hm.
